@@ -44,7 +44,7 @@ BUFS = [8192, 8192, 4096, 1024, 107, 64, 16, 1]
 def tier_config(tier):
     if tier == 'thorough':
         return {'runs': 60000, 'wall': 780, 'det_probe': 12}
-    return {'runs': 2600, 'wall': 100, 'det_probe': 6}
+    return {'runs': 10000, 'wall': 150, 'det_probe': 6}
 
 
 # ------------------------------------------------------------------ generation
